@@ -805,6 +805,9 @@ func addHostile(r *simkit.RNG, p *Pkg, i, np int, rootRun bool) {
 		{Path: "hd/h-leak", Kind: "link", Target: "h-top/../../victim"},
 		{Path: ".terraformignore", Kind: "fifo", Mode: 0o644},
 		{Path: ".terraformignore", Kind: "link", Target: "h-fifo"},
+		// a rule file that is a link to a file outside the package, whose rules exclude the link
+		{Path: ".terraformignore", Kind: "link", Target: "/w/outside-rules"},
+		{Path: ".terraformignore", Kind: "link", Target: "../../outside-rules"},
 		// links that name the very directory the fetcher was told to fill: inside the package
 		// while it is being examined, dangling once the directory has its final name
 		{Path: "h-tmp-rel", Kind: "link", Target: "../@TMPBASE@/main.tf"},
